@@ -28,17 +28,19 @@ def build(repo, findings):
     u.add(va.item(r'^pub enum ShellValueLiteral ', 'ShellValueLiteral').r1(keep_derive=()))
     u.prelude('assign/tail_spec.rs')
     fn = 'assignment_tail'
-    f = ip.slice('apply_assignment', r'^\s*if let Some\(\(existing_value_scope, existing_value\)\) =$', None,
+    f = ip.slice('apply_assignment', r'^\s*let in_innermost_scope = ', None,
                  'fn assignment_tail(assignment: &ast::Assignment, shell: &mut Shell, variable_name: &String, array_index: Option<String>, new_value: ShellValueLiteral, mut export: bool, export_variables_on_modification: bool, required_scope: Option<EnvironmentScope>, creation_scope: EnvironmentScope) -> Result<(), error::Error>', fn)
     f.r1().r3()
     f.resub(r'\bshell\.options\(\)\.', 'shell.options.', 'R22', 'accessor inlined', count=None)
+    f.resub(r'\bshell\.env\(\)\.', 'shell.env.', 'R22', 'accessor inlined', count=None)
     f.sig(fn, ret='res', ensures=[
         C('C09 an-assignment-never-gets-past-a-readonly-variable-temporary-assignments-included kf=C09:temporary-assignment-shadows-readonly',
           '{{KF:C09:temporary-assignment-shadows-readonly}} || ((%s.contains_key(variable_name@) && %s[variable_name@].1.readonly) ==> res is Err && %s == %s && %s == %s)' % (V0, V0, V1, V0, A1, A0)),
         C('C09 only-the-named-variable-is-touched', '%s.remove(variable_name@) =~= %s.remove(variable_name@)' % (V1, V0)),
-        C('C09 a-temporary-assignment-creates-its-own-variable-instead-of-writing-to-the-one-it-shadows', '''(%s.contains_key(variable_name@) && required_scope is Some && required_scope->Some_0 != %s[variable_name@].0 && res is Ok)
-    ==> %s.len() == %s.len() + 1''' % (V0, V0, A1, A0)),
-        C('C09 an-appending-temporary-assignment-starts-from-the-value-of-the-variable-it-shadows', '''(%s.contains_key(variable_name@) && required_scope is Some && required_scope->Some_0 != %s[variable_name@].0
+        C('C09 a-temporary-assignment-creates-its-own-variable-in-the-innermost-scope-instead-of-writing-to-the-one-it-shadows', '''(%s.contains_key(variable_name@) && required_scope is Some
+    && (required_scope->Some_0 != %s[variable_name@].0 || !old(shell).env.top_has@.contains(variable_name@)) && res is Ok)
+    ==> %s.len() == %s.len() + 1 && %s == %s''' % (V0, V0, A1, A0, 'final(shell).env.vars@.remove(variable_name@)', 'old(shell).env.vars@.remove(variable_name@)')),
+        C('C09 an-appending-temporary-assignment-starts-from-the-value-of-the-variable-it-shadows', '''(%s.contains_key(variable_name@) && required_scope is Some && (required_scope->Some_0 != %s[variable_name@].0 || !old(shell).env.top_has@.contains(variable_name@))
     && assignment.append && array_index is None && res is Ok) ==> %s.last().1.value == assigned(%s[variable_name@].1.value, new_value, true)''' % (V0, V0, A1, V0)),
         C('C09 assigning-to-the-visible-variable-never-drops-its-export-attribute', '''(%s.contains_key(variable_name@) && res is Ok && %s == %s) ==> %s.contains_key(variable_name@)
     && %s[variable_name@].1.readonly == %s[variable_name@].1.readonly
